@@ -16,13 +16,19 @@ run_one() { # patch, property
   if ! git -C "$wt/repo" apply "$(readlink -f "$patch")" 2>/dev/null; then echo "SKIP  $patch (does not apply)"; return; fi
   if ! (cd "$wt/repo" && go build ./... 2>/dev/null); then echo "SKIP  $patch (does not build)"; return; fi
   n=$((n+1))
-  out=$(bin/gvc check -p "$prop" -repo "$wt/repo" -evidence "$wt/evidence" 2>&1); rc=$?
+  out=$(GVC_NORETRY=1 bin/gvc check -p "$prop" -repo "$wt/repo" -evidence "$wt/evidence" 2>&1); rc=$?
   if [ $rc -eq 1 ] && echo "$out" | grep -q "^VIOLATION property=$prop"; then
     echo "CAUGHT $prop $(basename $(dirname $patch))/$(basename $patch): $(echo "$out" | grep -c '^VIOLATION') violation lines"
   else
     echo "MISSED $prop $patch"; fail=$((fail+1))
   fi
 }
+# sanity: with retries off the unchanged tree must still pass every property a mutant is filed under
+for prop in $(ls selftest/mutants/*.patch | xargs -n1 basename | cut -d_ -f1 | sort -u); do
+  [ -n "$only" ] && [ "$only" != "$prop" ] && continue
+  git -C "$wt/repo" checkout -q . ; git -C "$wt/repo" clean -qfd; sync_contracts
+  if ! GVC_NORETRY=1 bin/gvc check -p "$prop" -repo "$wt/repo" -evidence "$wt/evidence" >/dev/null 2>&1; then echo "BASELINE-FAILS $prop (without retries)"; fail=$((fail+1)); fi
+done
 for p in selftest/mutants/*.patch; do
   [ -e "$p" ] || continue
   prop=$(basename "$p" | cut -d_ -f1)
